@@ -464,6 +464,29 @@ func c04MatchedStaysMatched(c *Ctx, r *Result) {
 					Msg: key + ": the comparison with a listed error type is evaluated also when an earlier listed type has already matched, and its result replaces the flag: with `except \"A\", \"B\"` only the last listed type decides — an error of type A is not handled by this clause (a later bare except runs instead, or the error escapes)"})
 			}
 		})
+		// the other form: the first listed type that matches leaves the scan (return / break on the
+		// true edge of the comparison) — there is no flag a later comparison could overwrite
+		allInstrs(fn, func(in ssa.Instruction) {
+			cmp, ok := in.(*ssa.BinOp)
+			if !ok || cmp.Op != token.EQL {
+				return
+			}
+			if _, isIface := cmp.X.Type().Underlying().(*types.Interface); !isIface {
+				return
+			}
+			b := cmp.Block()
+			ifi, ok := b.Instrs[len(b.Instrs)-1].(*ssa.If)
+			if !ok || ifi.Cond != ssa.Value(cmp) {
+				return
+			}
+			loop := sccOf(b)
+			if loop == nil || loop[b.Succs[0]] {
+				return
+			}
+			n++
+			r.Instance("R04i", ord.key(key, "type-match-exit", accessPath(cmp.X)), c.Pos(c.InstrPos(cmp)), "ok",
+				"the first listed type that matches leaves the scan: no later comparison can undo the match", true)
+		})
 	}
 	r.Floor("R04i", n, 1)
 }
